@@ -216,7 +216,13 @@ class SpawnProcess(multiprocessing.context.SpawnProcess):
                 msg = os.strerror(exitcode)
                 if exitcode == 9:
                     msg += ': possibly out of memory'
-                raise OSError(exitcode, msg) from exc
+                error = OSError(exitcode, msg)
+                error.__cause__ = exc
+                # Do not raise in this thread: `self._future_` must be resolved,
+                # otherwise `wait` and `as_completed` would never return.
+        except Exception as exc:
+            # E.g. the result could not be unpickled in this process.
+            error = exc
 
         self._logger_queue_.put(None)
         self._result_and_error_.close()
